@@ -334,6 +334,7 @@ def c04_4(ctx, R="C04.4", eps_only=None):
         g = ("Gt", "subtract", "cost_left")
         exp = {("Err", frozenset({(g, True)}), frozenset()),
                ("Ok", frozenset({(g, False)}), frozenset({("set", "cost_left", (".0", ("SubWithOverflow", "cost_left", "subtract")))}))}
+        got, exp = set(U.orient(x) for x in got), set(U.orient(x) for x in exp)
         ctx.ob(R, "subtract_cost", got == exp, "subtract_cost rejects iff subtract > cost_left (strict), else subtracts",
                found=None if got == exp else [str(x) for x in got])
     eps = {
